@@ -108,6 +108,10 @@ func (m *mixedSpace) Ops(w *World) []Op {
 		if c.Parent != nil && c.TypeID == 7 {
 			ops = append(ops, Op{K: "settype", C: c.Serial, N: 107})
 		}
+		if c.Parent == nil && c.TypeID == 42 && !c.SID.HasTempAddress() {
+			// a root container changes its type (the root slab — data or index slab — carries it)
+			ops = append(ops, Op{K: "settype", C: c.Serial, N: 43})
+		}
 		if n > 0 && c.Parent == nil {
 			ops = append(ops, Op{K: "pop", C: c.Serial})
 		}
